@@ -16,14 +16,14 @@ theorem checkFileOnDisk_err {x : PyVal} {i : Nat} {e : ErrKind} (hx : EntryFacts
     simpa [entryJoinable, hp, hcomps'] using hj
   unfold checkFileOnDisk at h
   simp only [bind, Except.bind, getE_ok (getItem_dict_s_some hp), hie, hjo, Bool.not_true,
-    Bool.false_eq_true, if_false, pure, Except.pure, getE_ok (getItem_dict_s_some hl), hnum] at h
-  split at h
-  · simpa [throw, throwThe, MonadExceptOf.throw, eq_comm] using h
-  · split at h
+    Bool.false_eq_true, if_false, pure, Except.pure] at h
+  rcases statSize_cases (fs.fileStat i) with ⟨n, _, hs⟩ | ⟨_, hs⟩
+  · rw [hs] at h
+    simp only [getE_ok (getItem_dict_s_some hl), hnum] at h
+    split at h
     · simpa [throw, throwThe, MonadExceptOf.throw, eq_comm] using h
-    · split at h
-      · simpa [throw, throwThe, MonadExceptOf.throw, eq_comm] using h
-      · exact absurd h (by simp)
+    · exact absurd h (by simp)
+  · rw [hs] at h; simpa [eq_comm] using h
 
 /-- what the multi-file branch establishes -/
 def MultiFacts (info : Items) (plen : Nat) : Prop :=
